@@ -56,8 +56,80 @@ def c03(tier, seed, only=None):
     return runner.finish("C03", tier, seed, MC, results, rule, t0, mons)
 
 
+FL = "vx.monitors.flow."
+
+
+# ------------------------------------------------------------------ C01
+def c01(tier, seed, only=None):
+    t0 = time.time()
+    mons = [FL + "Justified"]
+    jobs = []
+    for s in gen.f2_all(tier):
+        jobs.append(job(s, dict(horizon=60), mons))
+    n1 = 2 if tier == "quick" else 2
+    for s in gen.f1_all(n1):
+        jobs.append(job(s, dict(horizon=40), mons))
+    dev = 2 if tier == "quick" else 3
+    for s in gen.f3_all():
+        jobs.append(job(s, dict(dev=dev, horizon=150), mons))
+    jobs = _filter(jobs, only)
+    results = runner.run_jobs(jobs, seed=seed)
+    rule = (
+        "token-game reference stepped in lock-step on every transition of a BFS over dispatch/complete "
+        "moves x outcomes {succeeded, failed} (plus result tokens); F1 (2-task micro grammar, complete) "
+        "and F2: all interleavings incl. lazy dispatch; F3 fixtures: deviation bound %d; distinct = "
+        "distinct canonical (engine state, provider state, reference state)" % dev
+    )
+    return runner.finish("C01", tier, seed, MC, results, rule, t0, mons)
+
+
+# ------------------------------------------------------------------ C07
+def c07(tier, seed, only=None):
+    t0 = time.time()
+    mons = [FL + "JoinBarrier"]
+    jobs = []
+    for s in gen.f2_all(tier):
+        if "join" not in json.dumps(s.wf):
+            continue
+        jobs.append(job(s, dict(horizon=60), mons))
+    dev = 2 if tier == "quick" else 3
+    for s in gen.f3_all():
+        if "join" not in json.dumps(s.wf):
+            continue
+        jobs.append(job(s, dict(dev=dev, horizon=150), mons))
+    jobs = _filter(jobs, only)
+    results = runner.run_jobs(jobs, seed=seed)
+    rule = (
+        "fan-in sweeps (m inbound x barrier x edge conditions x branch length x tail, joins in split "
+        "lineages, parallel edges) under all interleavings of dispatch/complete x {succeeded, failed}; "
+        "join fixtures deviation-bounded (%d); reference arrivals counted per (join, lineage) by "
+        "distinct inbound task" % dev
+    )
+    return runner.finish("C07", tier, seed, MC, results, rule, t0, mons)
+
+
+# ------------------------------------------------------------------ C06
+def c06(tier, seed, only=None):
+    t0 = time.time()
+    mons = [FL + "DataFlow"]
+    jobs = []
+    for s in gen.f6_publish(tier):
+        jobs.append(job(s, dict(horizon=60), mons))
+    jobs = _filter(jobs, only)
+    results = runner.run_jobs(jobs, seed=seed)
+    rule = (
+        "publish-placement sweeps over fork/join, split, decision and loop shapes; every action "
+        "completion returns a unique result token so a value identifies its publisher; causal "
+        "version-map reference compared with the offered ctx of every task under all interleavings"
+    )
+    return runner.finish("C06", tier, seed, MC, results, rule, t0, mons)
+
+
 REGISTRY = {
+    "C01": c01,
     "C03": c03,
+    "C06": c06,
+    "C07": c07,
 }
 
 
@@ -85,3 +157,56 @@ def replay_file(path):
         return 1
     print("violation not reproduced")
     return 0
+
+
+# ------------------------------------------------------------------ C05 / C18
+P = "vx.monitors.persist."
+
+
+def _persist_jobs(tier, mons, crash):
+    jobs = []
+    for s in gen.f2_all(tier):
+        big = s.meta.get("big")
+        cfg = dict(crash=crash, horizon=60, pause=1, resume=1, cancel=1)
+        cfg["dev"] = 2 if tier == "quick" else 3
+        if not big and tier != "quick":
+            cfg["dev"] = 4
+        jobs.append(job(s, cfg, mons))
+        jobs.append(job(s, dict(crash=crash, horizon=60, rerun=1, rerun_mode="tasks", dev=cfg["dev"]), mons))
+    for s in gen.f4_all(tier) + gen.f5_all(tier):
+        cfg = dict(crash=crash, horizon=60, pause=1, resume=1, cancel=1, dev=2 if tier == "quick" else 3)
+        jobs.append(job(s, cfg, mons))
+        jobs.append(job(s, dict(crash=crash, horizon=60, rerun=1, rerun_mode="tasks",
+                                dev=2 if tier == "quick" else 3), mons))
+    return jobs
+
+
+def c05(tier, seed, only=None):
+    t0 = time.time()
+    mons = [P + "PersistTwin"]
+    jobs = _filter(_persist_jobs(tier, mons, True), only)
+    results = runner.run_jobs(jobs, seed=seed)
+    rule = (
+        "every explored move is executed on the live conductor (pickle snapshot, in-memory aliasing kept) "
+        "and on deserialize(serialize(live)); return values, exceptions, offers and complete serialize() "
+        "must agree, and serialize(deserialize(x)) == x; 'crash' is also a move so states reached through "
+        "any subset of crash points are part of the space; deviation-bounded over F2/F4/F5 with pause, "
+        "resume, cancel and rerun budgets of 1"
+    )
+    return runner.finish("C05", tier, seed, MC, results, rule, t0, mons)
+
+
+def c18(tier, seed, only=None):
+    t0 = time.time()
+    mons = [P + "AppendOnly"]
+    jobs = _filter(_persist_jobs(tier, mons, False), only)
+    results = runner.run_jobs(jobs, seed=seed)
+    rule = (
+        "temporal invariant on every explored transition pre -> post: contexts/routes/sequence are "
+        "prefixes; started records keep ctxs.in and prev; decided records keep status/next/ctxs.out; "
+        "F2/F4/F5 with control and rerun budgets, deviation-bounded"
+    )
+    return runner.finish("C18", tier, seed, MC, results, rule, t0, mons)
+
+
+REGISTRY.update({"C05": c05, "C18": c18})
